@@ -16,7 +16,10 @@ MASS = ['kilogram', 'gram', 'milligram', 'pound', 'ounce', 'ton', 'slug']
 VOLUME = ['liter', 'milliliter', 'gallon', 'quart_liquid', 'quart_dry', 'pint_liquid', 'pint_dry', 'cup', 'fluid_ounce', 'tablespoon', 'teaspoon', 'cubic_meter', 'cubic_foot', 'cubic_yard']
 VELOCITY = ['meter_per_second', 'kilometer_per_hour', 'mile_per_hour', 'foot_per_second', 'knot']
 TEMP = ['kelvin', 'degree_celsius', 'degree_fahrenheit']
-ALLU = MASS + VOLUME + VELOCITY + TEMP
+# every unit uom 0.36 defines for these four quantities (the ones rscel does not use are present so that an edit reaching for one of
+# them is decided against the unit definitions instead of failing to type-check)
+UOM_ALL = {'mass': ['yottagram', 'zettagram', 'exagram', 'petagram', 'teragram', 'gigagram', 'megagram', 'kilogram', 'hectogram', 'decagram', 'gram', 'decigram', 'centigram', 'milligram', 'microgram', 'nanogram', 'picogram', 'femtogram', 'attogram', 'zeptogram', 'yoctogram', 'carat', 'dalton', 'grain', 'hundredweight_long', 'hundredweight_short', 'ounce', 'ounce_troy', 'pennyweight', 'pound', 'pound_troy', 'slug', 'ton_assay', 'ton_long', 'ton_short', 'ton'], 'volume': ['cubic_yottameter', 'cubic_zettameter', 'cubic_exameter', 'cubic_petameter', 'cubic_terameter', 'cubic_gigameter', 'cubic_megameter', 'cubic_kilometer', 'cubic_hectometer', 'cubic_decameter', 'cubic_meter', 'cubic_decimeter', 'cubic_centimeter', 'cubic_millimeter', 'cubic_micrometer', 'cubic_nanometer', 'cubic_picometer', 'cubic_femtometer', 'cubic_attometer', 'cubic_zeptometer', 'cubic_yoctometer', 'acre_foot', 'barrel', 'bushel', 'cord', 'cubic_foot', 'cubic_inch', 'cubic_mile', 'cubic_yard', 'cup', 'fluid_ounce', 'fluid_ounce_imperial', 'gallon_imperial', 'gallon', 'gill_imperial', 'gill', 'yottaliter', 'zettaliter', 'exaliter', 'petaliter', 'teraliter', 'gigaliter', 'megaliter', 'kiloliter', 'hectoliter', 'decaliter', 'liter', 'deciliter', 'centiliter', 'milliliter', 'microliter', 'nanoliter', 'picoliter', 'femtoliter', 'attoliter', 'zeptoliter', 'yoctoliter', 'peck', 'pint_dry', 'pint_liquid', 'quart_dry', 'quart_liquid', 'stere', 'tablespoon', 'teaspoon', 'register_ton'], 'velocity': ['yottameter_per_second', 'zettameter_per_second', 'exameter_per_second', 'petameter_per_second', 'terameter_per_second', 'gigameter_per_second', 'megameter_per_second', 'kilometer_per_second', 'hectometer_per_second', 'decameter_per_second', 'meter_per_second', 'decimeter_per_second', 'centimeter_per_second', 'millimeter_per_second', 'micrometer_per_second', 'nanometer_per_second', 'picometer_per_second', 'femtometer_per_second', 'attometer_per_second', 'zeptometer_per_second', 'yoctometer_per_second', 'foot_per_hour', 'foot_per_minute', 'foot_per_second', 'inch_per_second', 'kilometer_per_hour', 'knot', 'mile_per_hour', 'mile_per_minute', 'mile_per_second', 'millimeter_per_minute', 'atomic_unit_of_velocity', 'natural_unit_of_velocity', 'speed_of_light_in_vacuum'], 'thermodynamic_temperature': ['yottakelvin', 'zettakelvin', 'exakelvin', 'petakelvin', 'terakelvin', 'gigakelvin', 'megakelvin', 'kilokelvin', 'hectokelvin', 'decakelvin', 'kelvin', 'decikelvin', 'centikelvin', 'millikelvin', 'microkelvin', 'nanokelvin', 'picokelvin', 'femtokelvin', 'attokelvin', 'zeptokelvin', 'yoctokelvin', 'degree_celsius', 'degree_fahrenheit', 'degree_rankine']}
+ALLU = list(dict.fromkeys(MASS + VOLUME + VELOCITY + TEMP + [u for f in ('mass', 'volume', 'velocity', 'thermodynamic_temperature') for u in UOM_ALL[f]]))
 
 
 def camel(u):
